@@ -186,6 +186,21 @@ CHECKS = {
              "and counted; the check is inconclusive (exit 2) when fewer than 25 % of the cases are fully judged.",
         technique="TLC model checking of PolyId.tla + replay of every enumerated system through pLSCF / pLSCF_poles / the pLSCF class",
     ),
+    "C07": dict(
+        text="Bell.tla decides the claim domain in exact integer arithmetic (units of fs 10^-6): half-power bandwidth >= 4 "
+             "lines, >= 30 periods and the sppk + npmax extrema in the half record, analysis band >= 4 bandwidths and inside "
+             "the grid; TLC enumerates every in-claim (fn/fs, damping, segment length, channels, method, band, sampling rate) "
+             "configuration with invariants ClaimResolved, ClaimPeriods, ClaimExtrema, ClaimBand, ClaimRanges and the action "
+             "property GainFree, along the plan Estimate -> Scale(g) -> Estimate. For every configuration the harness builds "
+             "the analytic spectral matrix |H(f)|^2 phi phi^T + 1e-9 I (continuous-time receptance, catalogue real shape) and "
+             "runs fdd.EFDD_mpe and the EFDD / FSDD classes (spectrum injected at SD_est): MAC >= 0.999, |fn error| <= 2.5 %, "
+             "|xi error| <= 15 % at unit gain; estimates equal (1e-9 / 1e-7) after multiplying the matrix by 1e-6, 7.3, 2.5e4.",
+        ref="DESIGN.md §0.8, §6",
+        note="Weakest binding of all checks: the numbers are delegated arithmetic (numpy builds the bell, the library estimates); "
+             "TLC contributes the domain and the experiment plan. Selected frequency = fn and DF1 = one bandwidth are the "
+             "harness's choices. Quick 312 configurations, thorough a seeded sample of 30000 estimates of the finer grid.",
+        technique="TLC model checking of Bell.tla (claim domain) + replay of every in-claim configuration through EFDD_mpe / EFDD / FSDD",
+    ),
     "C06": dict(
         text="Fdd.tla: TLC enumerates singular-value tables (exact ratio comparison by cross-multiplication), selected "
              "frequencies on a quarter-line lattice and band half-widths >= one spacing, and computes the set of "
@@ -260,11 +275,7 @@ CHECKS = {
     ),
 }
 
-NOT_APPLICABLE = [
-    dict(property_id="C07",
-         reason="pure numeric tolerance of one curve fit (EFDD/FSDD accuracy within calibrated bands): no finite "
-                "abstract domain, case analysis or history for a TLA+ specification to decide; see DESIGN.md §6"),
-]
+NOT_APPLICABLE = []
 
 PENDING = ["C01", "C02", "C03", "C04", "C05", "C06", "C08", "C09", "C10", "C11", "C12", "C13", "C15", "C16",
            "C17", "C18", "C19", "C20"]
